@@ -45,7 +45,7 @@ var structOps = map[string]bool{"reroot": true, "rerootfirst": true, "unroot": t
 	"removesingle": true, "subtree": true, "nniapply": true, "insertidentical": true, "graft": true, "merge": true, "shuffle": true}
 
 func genTreeText(rt *rapid.T, prefix string, minTips, maxTips int, comments bool) string {
-	n := rapid.IntRange(minTips, maxTips).Draw(rt, "ntips")
+	n := drawTaxa(rt, minTips, maxTips)
 	rooted := rapid.Bool().Draw(rt, "rooted")
 	lens := rapid.IntRange(0, 2).Draw(rt, "lenmode") // 0 none, 1 all, 2 mixed
 	maxdeg := rapid.IntRange(2, 5).Draw(rt, "maxdeg")
